@@ -287,6 +287,14 @@ def conventional(rng, name, feat=None):
         q.field("name", "string", required=True, ref=rt)
         if rng.random() < 0.4:
             rand_fields(rng, q, enums, [P + ".Aux"], 2, tags, reserved)
+        if feat.get("multi_behavior") and rng.random() < 0.7:
+            # google.api.field_behavior is a list: REQUIRED next to another behaviour, declared after optional fields
+            from google.api import field_behavior_pb2 as fb_
+            q.field("read_hint", "string")
+            q.field("tenant", "string", behaviors=rng.choice([[fb_.INPUT_ONLY, fb_.REQUIRED], [fb_.REQUIRED, fb_.IMMUTABLE]]))
+            q.field("trace", "string")
+            q.field("scope", "string", behaviors=[fb_.IMMUTABLE, fb_.REQUIRED])
+            tags.add("required-with-second-behavior-after-optional")
         s.rpc(f"Get{R}", P + f".Get{R}Request", P + "." + R,
               http={"get": f"/{uver}/{{name={name_glob}}}"}, sigs=["name"])
         q = f.message(f"List{R}sRequest")
@@ -323,6 +331,8 @@ def conventional(rng, name, feat=None):
         if rng.random() < 0.3:
             q.field("validate_only", "bool")
         lro = rng.random() < 0.35 and feat.get("lro", True)
+        if feat.get("lro_force") and r == 0:
+            lro = True        # the option set under test needs a long-running method (never left to the draw)
         if lro:
             tags.add("lro")
             if not any(x.name == "OperationMetadata" for x in tf.pb.message_type):
@@ -635,7 +645,33 @@ def wellformed(rng, name, zero_ns=False, extra_feat=None):
     feat.update(extra_feat or {})
     api = conventional(rng, name, feat)
     api.info["feat"] = {k: v for k, v in feat.items()}
+    if rng.random() < 0.4:
+        add_dep_namesake_file(api, rng)
+    if rng.random() < 0.3:
+        # google.api.default_host is optional: a service without it (next to services that have one) is still importable and usable
+        # with an explicit endpoint
+        main = [x for x in api.files if x.pb.name.endswith(f"/{name}.proto")][0]
+        hs = main.service("Hostless")
+        hs.rpc("Peek", "." + api.info["pkg"] + ".Aux", "." + api.info["pkg"] + ".Aux")
+        api.tags.add("service-without-default-host")
     return api
+
+
+def add_dep_namesake_file(api, rng):
+    """A target file that carries the base name of a dependency file whose type it uses (acme/x/v1/status.proto with a
+    google.rpc.Status field; an API's own timestamp.proto, date.proto): two modules of one base name in one types module."""
+    pkg = api.info["pkg"]
+    base, typ, own = rng.choice([("status", ".google.rpc.Status", "JobStatus"), ("timestamp", ".google.protobuf.Timestamp", "Stamped"),
+                                 ("date", ".google.type.Date", "DateRange"), ("duration", ".google.protobuf.Duration", "Lease"),
+                                 ("latlng", ".google.type.LatLng", "Place")])
+    fx = File(pkg.replace(".", "/") + f"/{base}.proto", pkg, deps=list(STD_DEPS))
+    m = fx.message(own)
+    m.field("label", "string")
+    m.field("detail", typ)
+    m.field("history", typ, repeated=True)
+    fx.enum(own + "Kind", (own + "_kind_unspecified").upper(), (own + "_plain").upper())
+    api.add(fx)
+    api.tags.add("target-file-named-like-dependency-file:" + base)
 
 
 MIXIN_RULES = {
@@ -778,6 +814,24 @@ def types_zoo(rng, name, nmsgs=6):
     am.field("phase", nested_alias)
     am.map("by_key", "string", alias)
     tags.add("aliased-enum-values")
+    # NESTED messages whose fields are named like modules the types module imports (well-known types, proto-plus itself, the
+    # sibling file), each followed by a field that needs the shadowed module: the collision set must cover every nesting level
+    sib = twin[0] if twin else "shared_types"
+    sh = f.message("Shadows")
+    sh.field("label", "string")
+    l1 = sh.nested("Level1")
+    l1.field("timestamp", "string")
+    l1.field("at", ".google.protobuf.Timestamp")
+    l1.field("proto", "string")
+    l2 = l1.nested("Level2")
+    l2.field("duration", "int32")
+    l2.field("span", ".google.protobuf.Duration")
+    l2.field(sib, "string")
+    l2.field("shared", P + ".Shared")
+    l2.field("later", ".google.protobuf.Timestamp", repeated=True)
+    l1.field("deeper", P + ".Shadows.Level1.Level2")
+    sh.field("level1", P + ".Shadows.Level1")
+    tags.add("nested-fields-named-like-imported-modules")
     # real oneofs whose names start with an underscore (the idiom that preceded proto3 `optional`), before and between ordinary
     # oneofs and next to genuinely optional fields (whose synthetic oneofs have the same look)
     um = f.message("UnderscoreOneofs")
@@ -950,6 +1004,20 @@ def order_api(rng, name, same_short=False):
     svc.rpc("RouteLink", P + ".LinkRequest", P + ".LinkRequest", http={"post": "/v1/{name=links/*}:route"}, body="*",
             routing=[p for p in rparams[:rng.randint(3, 6)] if p[0] in ("name",) or len(order) > int(p[0][-1])])
     tags.add("multi-parameter-routing")
+    # list methods whose request has BOTH spellings of the page-size field, only one of them of an accepted type: whether the
+    # method is paginated must not depend on which spelling happens to be looked at first
+    for i, (mr_t, ps_t) in enumerate(rng.sample([(".google.protobuf.Int64Value", "int32"), ("int32", "string"), ("string", "int32"),
+                                                  (".google.protobuf.UInt32Value", "bool"), ("double", "int64")], 2)):
+        lq = f.message(f"ListBoth{i}Request")
+        lq.field("parent", "string")
+        lq.field("max_results", mr_t)
+        lq.field("page_size", ps_t)
+        lq.field("page_token", "string")
+        lo = f.message(f"ListBoth{i}Response")
+        lo.field("links", P + ".LinkRequest", repeated=True)
+        lo.field("next_page_token", "string")
+        svc.rpc(f"ListBoth{i}", P + f".ListBoth{i}Request", P + f".ListBoth{i}Response", http={"get": f"/v1/{{parent=links/*}}/both{i}"})
+    tags.add("both-page-size-spellings")
     # retry config with many codes in shuffled order
     codes = ["UNAVAILABLE", "DEADLINE_EXCEEDED", "ABORTED", "INTERNAL", "RESOURCE_EXHAUSTED", "UNKNOWN", "CANCELLED"]
     names = []
@@ -979,7 +1047,19 @@ def order_api(rng, name, same_short=False):
         svc.rpc("LongLink", P + ".LinkRequest", ".google.longrunning.Operation", http={"post": "/v1/{name=links/*}:long"}, body="*",
                 lro=("LinkRequest", "LinkRequest"))
         mix = rng.sample(["locations", "iam", "operations"], rng.randint(1, 3))
-        api.aux["service-yaml"] = ("svc.yaml", service_yaml(api, mixins=mix))
+        # a mixin rule with several additional bindings (one per resource collection plus a catch-all): their ORDER decides which URL a
+        # call is sent to, so it must be the order of the YAML
+        many = []
+        for m_ in mix:
+            sel, r0 = MIXIN_RULES[m_][1][0]
+            verb = [k for k in r0 if k in ("get", "post", "delete")][0]
+            extra_b = [{verb: r0[verb].replace("projects/*", coll + "/*"), **({"body": r0["body"]} if "body" in r0 else {})}
+                       for coll in ("organizations", "folders", "billingAccounts", "tenants")]
+            extra_b.append({verb: "/v1beta1/{" + ("resource" if m_ == "iam" else "name") + "=**}" + (":getIamPolicy" if m_ == "iam" else ""),
+                            **({"body": r0["body"]} if "body" in r0 else {})})
+            many.append({"selector": sel, **r0, "additional_bindings": extra_b})
+        api.aux["service-yaml"] = ("svc.yaml", service_yaml(api, mixins=mix, extra_rules=many))
+        tags.add("mixin-rule-with-many-additional-bindings")
         tags.update("mixin:" + m for m in mix)
     api.options = ["transport=grpc+rest", "metadata", "autogen-snippets"]
     return api
@@ -1127,6 +1207,17 @@ def rest_api(rng, name, numeric=False, nmethods=10):
             kw = dict(http={"post": f"/{ver}/{{sub.id=things/*}}/{{sub.kind=kinds/*}}:go"}, body="*")
         tags.add("shape:" + shape)
         s.rpc(f"Do{i}", P + f".Req{i}", out, **kw)
+    # requests WITHOUT any REQUIRED field (no table of required defaults is emitted for them), one per body kind
+    for j, (verb, tail, body) in enumerate([("get", "", None), ("post", ":paint", "*"), ("patch", ":fix", "payload")]):
+        q = f.message(f"Free{j}")
+        q.field("name", "string")
+        q.field("payload", P + ".Payload")
+        q.field("q_color", color)
+        q.field("q_colors", color, repeated=True)
+        q.field("q_str", "string")
+        q.field("q_leaf", P + ".Leaf")
+        s.rpc(f"Free{j}", P + f".Free{j}", P + ".Reply", http={verb: f"/{ver}/{{name=frees/*}}{tail}"}, **({"body": body} if body else {}))
+    tags.add("request-without-required-fields")
     # unbound + streaming
     s.rpc("Unbound", P + ".Req0", P + ".Reply")
     s.rpc("Upload", P + ".Req0", P + ".Reply", cs=True, http={"post": f"/{ver}/{{name=things/*}}:upload"}, body="*")
@@ -1245,11 +1336,27 @@ def flat_api(rng, name):
         q.field("values_list", ".google.protobuf.ListValue")
         q.field("anything", ".google.protobuf.Any")
         q.field("untouched", "string")
-        s.rpc(f"Call{i}", P + f".Req{i}", P + ".Reply", sigs=[",".join(x) for x in sigs])
+        # google.api.method_signature is a comma-separated list; blanks after the commas are legal and common in hand-written protos
+        sep = ", " if i % 3 == 1 else ","
+        s.rpc(f"Call{i}", P + f".Req{i}", P + ".Reply", sigs=[sep.join(x) for x in sigs])
+        if sep != ",":
+            tags.add("signature-with-blanks")
         for x in sigs:
             for p in x:
                 tags.add("sig:" + ("dotted" if "." in p else p))
         tags.add(f"nsigs:{len(sigs)}")
+    # a request type that lives in <word>.proto and has a field named <word> (dialogflow's session.proto / `session`): the flattened
+    # parameter shadows the module the method body needs, whatever the spelling of the signature
+    fsess = File(f"vp/{name}/{ver}/session.proto", pkg, deps=list(STD_DEPS))
+    api.add(fsess)
+    f.pb.dependency.append(fsess.pb.name)
+    dq = fsess.message("DetectRequest")
+    dq.field("parent", "string")
+    dq.field("session", "string")
+    dq.field("text", "string")
+    s.rpc("Detect", P + ".DetectRequest", P + ".Reply", sigs=["parent, session, text"])
+    s.rpc("EndSession", P + ".DetectRequest", P + ".Reply", sigs=["session"])
+    tags.add("flattened-field-named-like-request-module")
     # requests from a dependency package (pb2 classes): non-primitive fields are not offered
     s.rpc("SetPolicy", ".google.iam.v1.SetIamPolicyRequest", ".google.iam.v1.Policy", sigs=["resource"])
     s.rpc("TestPerms", ".google.iam.v1.TestIamPermissionsRequest", ".google.iam.v1.TestIamPermissionsResponse", sigs=["resource,permissions"])
@@ -1472,12 +1579,19 @@ def paging_api(rng, name):
         tags.add("req:" + qs)
         tags.add("resp:" + rs)
         api.info.setdefault("shapes", {})[f"List{i}"] = [qs, rs]
+    # every other method has a DEFAULT retry policy (retry-only entry: no default deadline): an explicit retry=None must then switch
+    # retrying off for every page fetch, not only for the first
+    named = [f"List{i}" for i in range(len(api.info.get("shapes", {}))) if i % 2 == 0]
+    cfg = [{"name": [{"service": f"{pkg}.Pages", "method": n_} for n_ in named],
+            "retryPolicy": {"initialBackoff": "0.005s", "maxBackoff": "0.01s", "backoffMultiplier": 1.0, "retryableStatusCodes": ["UNAVAILABLE"]}}]
+    api.aux["retry-config"] = ("retry.json", json.dumps({"methodConfig": cfg}))
+    api.info["default_retry_methods"] = named
     api.options = ["transport=grpc+rest", "autogen-snippets=false"]
     api.info.update(pkg=pkg, version=ver, ns=["vp"], name=name, host=f"{name}.googleapis.com")
     return api
 
 
-def lro_api(rng, name, broken=None, rest=False, subpkg=False):
+def lro_api(rng, name, broken=None, rest=False, subpkg=False, async_rest=False):
     """operation_info type-resolution matrix (C08).  broken in {None, 'no_response', 'no_metadata', 'both_empty'}
     produces a request that must be rejected.  subpkg: the service and its files live in the proto sub-package <root>.admin next
     to a sibling sub-package <root>.common — relative type names are relative to the METHOD's package, not to the API's root."""
@@ -1488,7 +1602,9 @@ def lro_api(rng, name, broken=None, rest=False, subpkg=False):
     pkg = base + ".admin" if subpkg else base
     P = "." + pkg
     dirp = f"vp/{name}/{ver}" + ("/admin" if subpkg else "")
-    fname_other = rng.choice(["progress", "operation", "operation_async", "results", "pagers", "common"])
+    # (metadata / request / retry / timeout are parameter names of every client method: such files are renamed <name>_ )
+    fname_other = rng.choice(["progress", "operation", "operation_async", "results", "pagers", "common", "metadata", "request", "retry", "timeout",
+                              "metadata", "request"])
     f_imp = File(f"{dirp}/imported_types.proto", pkg, deps=list(STD_DEPS))
     f_not = File(f"{dirp}/{fname_other}.proto", pkg, deps=list(STD_DEPS))
     f = File(f"{dirp}/{name}.proto", pkg, deps=list(STD_DEPS) + [f_imp.pb.name])
@@ -1578,10 +1694,16 @@ def lro_api(rng, name, broken=None, rest=False, subpkg=False):
         # over REST the operation future polls google.longrunning.Operations where the service YAML's http rules say it is
         # served — whether or not the YAML also lists Operations as a mixin under `apis`
         api.options = ["transport=grpc+rest", "autogen-snippets=false"]
+        # the experimental asyncio REST transport has its own operations client (AsyncOperationsRestClient on an async transport)
+        pub = {"library_settings": [{"version": base, "python_settings": {"experimental_features": {"rest_async_io_enabled": True}}}]} if async_rest else None
+        if async_rest:
+            tags.add("rest-lro-asyncio")
         if rest == "norules":
             # no Operations http rule anywhere: the fallback binding of api-core is used, under the API's own version
-            api.info["rest_lro"] = {"prefix": "/" + ver, "operations_listed_under_apis": False, "rules": False}
+            api.info["rest_lro"] = {"prefix": "/" + ver, "operations_listed_under_apis": False, "rules": False, "async": bool(async_rest)}
             tags.update(["rest-lro", "rest-lro-without-rules", "ver:" + ver])
+            if pub:
+                api.aux["service-yaml"] = ("svc.yaml", service_yaml(api, publishing=pub))
         else:
             prefix = rng.choice(["/lro/v1", "/v1beta9/ops", "/x"])
             in_apis = (rng.random() < 0.5) if rest is True else (rest == "listed")
@@ -1589,8 +1711,9 @@ def lro_api(rng, name, broken=None, rest=False, subpkg=False):
                      {"selector": "google.longrunning.Operations.CancelOperation", "post": prefix + "/{name=projects/*/operations/*}:cancel", "body": "*"},
                      {"selector": "google.longrunning.Operations.DeleteOperation", "delete": prefix + "/{name=projects/*/operations/*}"},
                      {"selector": "google.longrunning.Operations.ListOperations", "get": prefix + "/{name=projects/*}/operations"}]
-            api.aux["service-yaml"] = ("svc.yaml", service_yaml(api, mixins=["operations"] if in_apis else [], rules={"operations": []}, extra_rules=rules))
-            api.info["rest_lro"] = {"prefix": prefix, "operations_listed_under_apis": in_apis, "rules": True}
+            api.aux["service-yaml"] = ("svc.yaml", service_yaml(api, mixins=["operations"] if in_apis else [], rules={"operations": []}, extra_rules=rules,
+                                                                 publishing=pub))
+            api.info["rest_lro"] = {"prefix": prefix, "operations_listed_under_apis": in_apis, "rules": True, "async": bool(async_rest)}
             tags.update(["rest-lro", "ops-in-apis:" + str(in_apis)])
     return api
 
@@ -1600,16 +1723,23 @@ GRPC_CODES = ["CANCELLED", "UNKNOWN", "INVALID_ARGUMENT", "DEADLINE_EXCEEDED", "
               "DATA_LOSS", "UNAUTHENTICATED"]
 
 
-def retry_api(rng, name):
+def retry_api(rng, name, subpkg=False):
     """gRPC service-config shapes (C09): several entries, entries naming several methods, timeout with/without
-    retryPolicy, retryPolicy without timeout, fractional / nanosecond durations, same method name in two services."""
+    retryPolicy, retryPolicy without timeout, fractional / nanosecond durations, same method name in two services.
+    subpkg: the services live in the proto sub-package <root>.store (next to <root>.audit): the config names them by their FULL proto name."""
     api = Api(name)
     tags = api.tags
     ver = "v1"
-    pkg = f"vp.{name}.{ver}"
+    base = f"vp.{name}.{ver}"
+    pkg = base + ".store" if subpkg else base
     P = "." + pkg
-    f = File(f"vp/{name}/{ver}/{name}.proto", pkg, deps=list(STD_DEPS))
+    f = File(f"{pkg.replace('.', '/')}/{name}.proto", pkg, deps=list(STD_DEPS))
     api.add(f)
+    if subpkg:
+        fa = File(f"{base.replace('.', '/')}/audit/trail.proto", base + ".audit", deps=list(STD_DEPS))
+        fa.message("Trail").field("note", "string")
+        api.add(fa)
+        tags.add("services-in-a-sub-package")
     q = f.message("Req")
     q.field("name", "string")
     r = f.message("Reply")
@@ -1674,22 +1804,28 @@ def retry_api(rng, name):
     cfg.append({"name": [{"service": A, "method": pool[0]}, {"service": A, "method": pool[4]}], "timeout": f"{timeouts[3]}s", "retryPolicy": policy()})
     # entry 6: names a method that does not exist and a service that does not exist
     cfg.append({"name": [{"service": A, "method": "Nope"}, {"service": f"{pkg}.Gamma", "method": "Get"}], "timeout": "3s", "retryPolicy": policy()})
+    # entry 7: the very backoff numbers of entry 1 with OTHER retryable codes (two policies that differ only in their code lists)
+    twin = dict(cfg[0]["retryPolicy"])
+    others = [c for c in GRPC_CODES if c not in twin["retryableStatusCodes"]]
+    twin["retryableStatusCodes"] = rng.sample(others, rng.randint(1, 3))
+    cfg.append({"name": [{"service": A, "method": pool[5]}], "timeout": f"{timeouts[5]}s", "retryPolicy": twin})
+    tags.add("entry:same-backoff-other-codes")
     lp = policy()
     lp["retryableStatusCodes"] = sorted(set(lp["retryableStatusCodes"]) - {"NOT_FOUND"}) or ["UNAVAILABLE"]
     cfg.append({"name": [{"service": A, "method": "List"}], "timeout": f"{timeouts[4]}s", "retryPolicy": lp})
     if rng.random() < 0.5:
         rng.shuffle(cfg[1:4])
-    # pool[5:], Alpha.Get (unless drawn), Beta.Put, Beta.Other stay unnamed
+    # pool[6:], Alpha.Get (unless drawn), Beta.Put, Beta.Other stay unnamed
     api.aux["retry-config"] = ("retry.json", json.dumps({"methodConfig": cfg}, indent=1))
     api.info["retry_cfg"] = cfg
     tags.update(["entry:multi-name", "entry:timeout-only", "entry:retry-only", "entry:ns-duration", "entry:duplicate", "entry:unknown-method",
                  "same-method-two-services"])
     api.options = ["transport=grpc+rest", "autogen-snippets=false"]
-    api.info.update(pkg=pkg, version=ver, ns=["vp"], name=name, host=f"{name}.googleapis.com")
+    api.info.update(pkg=base, version=ver, ns=["vp"], name=name, host=f"{name}.googleapis.com", sub="store" if subpkg else "")
     return api
 
 
-C12_POSITIONS = ["field", "flat", "flat_dotted", "path", "path_dotted", "path_dotted_parent", "body", "query", "query_required", "routing", "routing_nested", "rpc", "file"]
+C12_POSITIONS = ["field", "flat", "flat_dotted", "path", "path_dotted", "path_dotted_parent", "body", "body_plain_uri", "query", "query_required", "routing", "routing_nested", "rpc", "file"]
 
 
 def reserved_api(name, words, position):
@@ -1716,7 +1852,11 @@ def reserved_api(name, words, position):
             f.pb.dependency.append(fx.pb.name)
             q = f.message(f"Req{i}")
             q.field("anchor", "string")
+            # a field named like the file's module, declared BEFORE fields whose types come from that file: inside the class body
+            # the attribute would shadow the module for every later reference
+            q.field(w, "string")
             q.field("held", P + f".InFile{i}")
+            q.field("held_again", P + f".InFile{i}", repeated=True)
             s.rpc(f"UseFile{i}", P + f".Req{i}", P + f".InFile{i}", http={"post": f"/v1/{{anchor=anchors/*}}:file{i}"}, body="*")
             item.update(rpc=f"UseFile{i}", req=f"{pkg}.Req{i}", msg=f"{pkg}.InFile{i}")
             api.info["items"].append(item)
@@ -1735,7 +1875,7 @@ def reserved_api(name, words, position):
         inner.field("other", "string", number=1)
         q = f.message(f"Req{i}")
         q.field("anchor", "string", number=1)
-        if position in ("body", "path_dotted_parent"):
+        if position in ("body", "body_plain_uri", "path_dotted_parent"):
             q.field(w, P + f".Inner{i}", number=7)
         elif position == "query_required":
             q.field(w, "string", number=7, required=True)
@@ -1759,6 +1899,9 @@ def reserved_api(name, words, position):
             kw = dict(http={"patch": f"/v1/{{{w}.other=things/*}}/pp{i}"}, body=w)
         elif position == "body":
             kw = dict(http={"post": f"/v1/{{anchor=anchors/*}}:b{i}"}, body=w)
+        elif position == "body_plain_uri":
+            # the Create-at-top-level shape: a URI without any path variable, body = the reserved-word field
+            kw = dict(http={"post": f"/v1/plain/b{i}"}, body=w)
         elif position == "query":
             kw = dict(http={"get": f"/v1/{{anchor=anchors/*}}:q{i}"})
         elif position == "query_required":
@@ -1863,6 +2006,9 @@ def respath_api(rng, name, npat=36):
         if rng.random() < 0.3:
             p2, _, _ = rand_pattern(rng)
             extra = [p2]          # only the first pattern gets helpers
+        elif rng.random() < 0.3:
+            extra = ["*"]         # a later wildcard pattern (resources that may also be named arbitrarily) changes nothing for the first one
+            api.tags.add("later-wildcard-pattern")
         if how == "message":
             m = f.message(tn)
             m.resource(rtype, pat, *extra)
@@ -1901,28 +2047,65 @@ def respath_api(rng, name, npat=36):
     s = f.service("Paths", host=f"{name}.googleapis.com")
     s.rpc("Do", P + ".Req", P + ".Reply")
     s.rpc("Run", P + ".Req", ".google.longrunning.Operation", lro=("LroResult", "LroMeta"))
+    # a method whose response (and one whose request) IS a resource message that holds further resource messages, reachable no other
+    # way: Get returns Crate, Crate holds Slats, a Slat holds a Nail
+    nail = f.message("NailPart")
+    nail.resource(f"{name}.googleapis.com/NailPart", "crates/{crate_part}/slats/{slat_part}/nails/{nail_part}")
+    nail.field("name", "string")
+    slat = f.message("SlatPart")
+    slat.resource(f"{name}.googleapis.com/SlatPart", "crates/{crate_part}/slats/{slat_part}")
+    slat.field("name", "string")
+    slat.field("nail", P + ".NailPart")
+    crate = f.message("CratePart")
+    crate.resource(f"{name}.googleapis.com/CratePart", "crates/{crate_part}")
+    crate.field("name", "string")
+    crate.field("slats", P + ".SlatPart", repeated=True)
+    s.rpc("GetCrate", P + ".Req", P + ".CratePart")
+    bolt = f.message("BoltPart")
+    bolt.resource(f"{name}.googleapis.com/BoltPart", "racks/{rack_part}/bolts/{bolt_part}")
+    bolt.field("name", "string")
+    rack = f.message("RackPart")
+    rack.resource(f"{name}.googleapis.com/RackPart", "racks/{rack_part}")
+    rack.field("name", "string")
+    rack.map("bolts", "string", P + ".BoltPart")
+    s.rpc("UpdateRack", P + ".RackPart", P + ".Reply")
+    for short, pat_, vars_ in (("NailPart", "crates/{crate_part}/slats/{slat_part}/nails/{nail_part}", ["crate_part", "slat_part", "nail_part"]),
+                               ("SlatPart", "crates/{crate_part}/slats/{slat_part}", ["crate_part", "slat_part"]),
+                               ("CratePart", "crates/{crate_part}", ["crate_part"]),
+                               ("BoltPart", "racks/{rack_part}/bolts/{bolt_part}", ["rack_part", "bolt_part"]),
+                               ("RackPart", "racks/{rack_part}", ["rack_part"])):
+        res.append({"type": f"{name}.googleapis.com/{short}", "short": short, "pattern": pat_, "vars": vars_, "form": "plain",
+                    "how": "held_by_a_resource_that_is_the_request_or_response"})
+    tags.add("how:held_by_a_resource_that_is_the_request_or_response")
     api.info["resources"] = res
     api.options = ["transport=grpc", "autogen-snippets=false"]
     api.info.update(pkg=pkg, version=ver, ns=["vp"], name=name, host=f"{name}.googleapis.com")
     return api
 
 
-AUTOPOP_VIOLATIONS = ["unknown_method", "server_streaming", "client_streaming", "nested_field", "required_field", "int_field",
+AUTOPOP_VIOLATIONS = ["unknown_method", "server_streaming", "client_streaming", "bidi_streaming", "nested_field", "required_field", "int_field",
                       "bytes_field", "unannotated", "other_format", "duplicate_selector", "unknown_field", "message_field",
                       "duplicate_selector_long_running_only", "duplicate_selector_empty_fields", "duplicate_of_unpopulated",
                       "required_after_other_behavior", "required_before_other_behavior",
                       "leading_dot_selector", "leading_dot_duplicate"]
 
 
-def autopop_api(rng, name, violation=None, plant=True):
-    """AIP-4235 shapes (C18)."""
+def autopop_api(rng, name, violation=None, plant=True, subpkg=False):
+    """AIP-4235 shapes (C18).  subpkg: every service lives in the proto sub-package <root>.catalog (next to <root>.resources): the
+    settings are validated and applied all the same."""
     from google.api import field_info_pb2
     api = Api(name)
     ver = "v1"
-    pkg = f"vp.{name}.{ver}"
+    base = f"vp.{name}.{ver}"
+    pkg = base + ".catalog" if subpkg else base
     P = "." + pkg
-    f = File(f"vp/{name}/{ver}/{name}.proto", pkg, deps=list(STD_DEPS))
+    f = File(f"{pkg.replace('.', '/')}/{name}.proto", pkg, deps=list(STD_DEPS))
     api.add(f)
+    if subpkg:
+        fr = File(f"{base.replace('.', '/')}/resources/shared.proto", base + ".resources", deps=list(STD_DEPS))
+        fr.message("SharedThing").field("label", "string")
+        api.add(fr)
+        api.tags.add("services-in-a-sub-package")
     sub = f.message("Sub")
     sub.field("request_id", "string", uuid4=True)
     q = f.message("Req")
@@ -1954,6 +2137,7 @@ def autopop_api(rng, name, violation=None, plant=True):
     s.rpc("Untouched", P + ".Req", P + ".Reply", http={"post": "/v1/{name=things/*}:untouched"}, body="*")
     s.rpc("Tail", P + ".Req", P + ".Reply", ss=True, http={"get": "/v1/{name=things/*}:tail"})
     s.rpc("Upload", P + ".Req", P + ".Reply", cs=True)
+    s.rpc("Chat", P + ".Req", P + ".Reply", cs=True, ss=True)
     # a long-running method is a unary RPC too: its request ids are populated like any other
     s.rpc("StartJob", P + ".Req", ".google.longrunning.Operation", http={"post": "/v1/{name=things/*}:startJob"}, body="*", lro=("Reply", "Sub"))
     s.rpc("Purge", P + ".Req", ".google.protobuf.Empty", http={"post": "/v1/{name=things/*}:purge"}, body="*")
@@ -1969,6 +2153,7 @@ def autopop_api(rng, name, violation=None, plant=True):
         "unknown_method": {"selector": f"{S}.Nope", "auto_populated_fields": ["request_id"]},
         "server_streaming": {"selector": f"{S}.Tail", "auto_populated_fields": ["request_id"]},
         "client_streaming": {"selector": f"{S}.Upload", "auto_populated_fields": ["request_id"]},
+        "bidi_streaming": {"selector": f"{S}.Chat", "auto_populated_fields": ["request_id"]},
         "nested_field": {"selector": f"{S}.Untouched", "auto_populated_fields": ["sub.request_id"]},
         "required_field": {"selector": f"{S}.Untouched", "auto_populated_fields": ["required_id"]},
         "int_field": {"selector": f"{S}.Untouched", "auto_populated_fields": ["int_id"]},
@@ -1997,7 +2182,7 @@ def autopop_api(rng, name, violation=None, plant=True):
     api.info["method_settings"] = settings
     api.aux["service-yaml"] = ("svc.yaml", service_yaml(api, publishing={"method_settings": settings}))
     api.options = ["transport=grpc+rest", "autogen-snippets=false"]
-    api.info.update(pkg=pkg, version=ver, ns=["vp"], name=name, host=f"{name}.googleapis.com")
+    api.info.update(pkg=base, version=ver, ns=["vp"], name=name, host=f"{name}.googleapis.com", sub="catalog" if subpkg else "")
     return api
 
 
@@ -2120,7 +2305,7 @@ def mixin_api(rng, name, mixins, rules_mode, own_iam=None, add_iam=False, transp
     return api
 
 
-def prefix_packages_api(rng, name, layout=None):
+def prefix_packages_api(rng, name, layout=None, services=False):
     """Target files in several packages under one version whose names are character prefixes of one another
     (x.v1.admin / x.v1.admin_types / x.v1.adm): the root package must not depend on which one a set yields first (C10)."""
     api = Api(name)
@@ -2133,6 +2318,10 @@ def prefix_packages_api(rng, name, layout=None):
         subs = rng.choice([["", "birds", "fish", "mammals"], ["", "zeta", "alpha", "mid", "beta"]])
     elif layout == "prefix":
         subs = rng.choice([["admin", "admin_types"], ["admin_types", "admin"], ["adm", "admin", "admin_types"], ["core", "core_v2_types"]])
+    elif layout == "prefix3":
+        # sibling sub-packages, one a character prefix of another, plus one that shares nothing
+        subs = rng.choice([["catalog", "catalog_admin", "shelves"], ["shelves", "kind", "kinds"], ["adm", "other", "admin", "admin_types"],
+                           ["catalog_admin", "zebra", "catalog"]])
     files = []
     for i, sub in enumerate(subs):
         pkg = f"{base}.{sub}" if sub else base
@@ -2142,8 +2331,13 @@ def prefix_packages_api(rng, name, layout=None):
         if files:
             m.field("prev", f".{files[-1].pb.package}.Thing{i - 1}")
         f.enum(f"Kind{i}", f"KIND{i}_UNSPECIFIED", f"K{i}_A")
+        if services:
+            sv = f.service(f"Svc{i}", host=f"{name}.googleapis.com")
+            sv.rpc(f"Get{i}", f".{pkg}.Thing{i}", f".{pkg}.Thing{i}", http={"get": f"/v1/{{name=things{i}/*}}"})
         files.append(f)
         api.add(f)
+    if layout == "prefix3":
+        pass
     api.options = ["transport=grpc+rest", "autogen-snippets=false", "metadata"]
     api.info.update(pkg=base, version=ver, ns=["vp"], name=name, host=f"{name}.googleapis.com")
     api.tags.add("packages-that-are-character-prefixes")
